@@ -14,6 +14,9 @@ func (fg *FnGen) builtin(b *ssa.Builtin, cc *ssa.CallCommon, resT types.Type, po
 		args = append(args, fg.val(a))
 	}
 	fg.atCallAsserts(b.Name(), args, pos)
+	if b.Name() == "close" && len(cc.Args) == 1 {
+		fg.chanInvAtClose(args[0], cc.Args[0], pos)
+	}
 	r := fg.builtinArgs(b, args, resT, pos)
 	fg.atCallGhosts(b.Name(), args, r, pos)
 	return r
